@@ -14,6 +14,9 @@ import (
 	"math/big"
 
 	"github.com/youchainhq/go-youchain/common"
+	"github.com/youchainhq/go-youchain/consensus"
+	"github.com/youchainhq/go-youchain/core/state"
+	"github.com/youchainhq/go-youchain/core/types"
 	"github.com/youchainhq/go-youchain/crypto/vrf"
 	"github.com/youchainhq/go-youchain/params"
 	"github.com/youchainhq/go-youchain/zzverif"
@@ -194,5 +197,84 @@ func zzH_C04_server_sortition() {
 	zzverif.Assert(a.index == data.RoundIndex && a.role == data.Step && a.sub == data.Votes, "round index, step and seat count are the message's")
 	zzverif.Assert(string(a.proof) == string(data.Proof), "the proof is the message's")
 	zzverif.Assert(a.stake == st.stake && a.total == st.total && a.threshold == st.threshold, "stake, total stake and threshold of the look-back state")
+	zzverif.Reach("end")
+}
+
+// ---- the look-back stake information both the prover and the verifier use ----
+
+type zzC04sChain struct {
+	consensus.ChainReader
+	asked []uint64
+}
+
+func (c *zzC04sChain) GetHeaderByNumber(n uint64) *types.Header {
+	c.asked = append(c.asked, n)
+	return &types.Header{Number: new(big.Int).SetUint64(n), CurrVersion: params.YouCurrentVersion, ValRoot: common.Hash{0xEE, byte(n >> 8), byte(n)}}
+}
+
+type zzC04sReader struct {
+	state.ValidatorReader
+	v    *state.Validator
+	stat *state.ValidatorsStat
+}
+
+func (r zzC04sReader) GetValidatorByMainAddr(a common.Address) *state.Validator { return r.v }
+func (r zzC04sReader) GetValidatorsStat() (*state.ValidatorsStat, error)        { return r.stat, nil }
+
+var zzC04sRootAsked []common.Hash
+var zzC04sVld zzC04sReader
+
+func (c *zzC04sChain) GetVldReader(root common.Hash) (state.ValidatorReader, error) {
+	zzC04sRootAsked = append(zzC04sRootAsked, root)
+	return zzC04sVld, nil
+}
+
+func zzC04sPubToAddr(pub []byte) common.Address { return common.Address{0xA0, pub[1]} }
+
+// zzH_C04_stake_info: Server.getLookbackStakeInfo - the committee size ("threshold") a
+// credential is issued and verified for is the proposer threshold for proposers, the
+// certificate committee size of the look-back header's version for certificate votes
+// (whichever certificate look-back kind the caller names) and the validator threshold
+// otherwise; stake and total stake are read at the stake look-back height of the round.
+//
+//verif:real (*$M/consensus/ucon.Server).getLookbackStakeInfo
+//verif:replace $M/core/state.PubToAddress zzC04sPubToAddr
+func zzH_C04_stake_info() {
+	zzC04sCP = params.CaravelParams{ProposerThreshold: zzverif.U64("proposerThreshold"), ValidatorThreshold: zzverif.U64("validatorThreshold"),
+		StakeLookBack: uint64(zzverif.U16("stakeLookBack")), SeedLookBack: uint64(zzverif.U16("seedLookBack"))}
+	chain := &zzC04sChain{}
+	zzC04sRootAsked = nil
+	pub := make([]byte, 33)
+	pub[0], pub[1] = 2, 7
+	v := state.NewValidator("v", common.Address{}, common.Address{}, params.RoleChancellor, pub, pub, new(big.Int), new(big.Int).SetUint64(uint64(zzverif.U32("stake"))), 0, 0, 0, params.ValidatorOnline)
+	stat := state.NewValidatorsStat()
+	stat.GetByKind(params.KindChamber).AddVal(v)
+	zzC04sVld = zzC04sReader{v: v, stat: stat}
+	s := &Server{chain: chain}
+	round := uint64(zzverif.U32("round"))
+	zzverif.Assume(round >= 1)
+	lbs := []params.LookBackType{params.LookBackPos, params.LookBackStake, params.LookBackSeed, params.LookBackCert, params.LookBackCertStake, params.LookBackCertSeed}
+	lb := lbs[zzverif.Choose("lookBackKind", len(lbs))]
+	isProposer := zzverif.Bool("isProposer")
+	stake, total, threshold, kind, status, err := s.getLookbackStakeInfo(new(big.Int).SetUint64(round), common.Address{0xA0, 7}, isProposer, lb)
+	zzverif.Assert(err == nil && kind == params.KindChamber && status == params.ValidatorOnline, "an online chamber member's information is found")
+	cert := lb == params.LookBackCert || lb == params.LookBackCertStake || lb == params.LookBackCertSeed
+	want := zzC04sCP.ValidatorThreshold
+	if isProposer {
+		want = zzC04sCP.ProposerThreshold
+	} else if cert {
+		want = params.Versions[params.YouCurrentVersion].CertValThreshold
+	}
+	zzverif.Assert(threshold == want, "the committee size is the proposer threshold, the certificate committee size for certificate votes, the validator threshold otherwise")
+	back := zzC04sCP.StakeLookBack
+	if cert {
+		back = 2 * params.ACoCHTFrequency
+	}
+	at := uint64(0)
+	if round > back {
+		at = round - back
+	}
+	zzverif.Assert(len(chain.asked) == 1 && chain.asked[0] == at && len(zzC04sRootAsked) == 1 && zzC04sRootAsked[0] == (common.Hash{0xEE, byte(at >> 8), byte(at)}), "stake and total stake are read in the validator set at the round's stake look-back height")
+	zzverif.Assert(stake.Cmp(v.Stake) == 0 && total.Cmp(v.Stake) == 0, "stake and total chamber stake of that set")
 	zzverif.Reach("end")
 }
